@@ -324,3 +324,193 @@ def replay_time(v, unit, times):
         return False, "instants preserved"
     finally:
         shutil.rmtree(d, ignore_errors=True)
+
+
+# ------------------------------------------------------------------------------------------------------
+# C. timedelta64[ns] -> TIME_MICROS: writer.time_shift must store floor(v / 1000) (NaT kept), which the reader views
+#    as timedelta64[us].  Interpreted over 64-bit vectors; true division (`/`, np.divide, np.true_divide) is IEEE
+#    double arithmetic (z3 floating point), storing a float into the int64 output truncates toward zero.
+class _BV:
+    NAT = -(2 ** 63)
+
+    def __init__(self, src_v):
+        self.V = src_v
+        self.out = None                    # value of the output buffer
+        self.env = {}
+
+    @staticmethod
+    def fdiv(a, k):
+        kk = z3.BitVecVal(k, 64)
+        q, r = a / kk, z3.SRem(a, kk)
+        return z3.If(z3.And(r != 0, a < 0), q - 1, q)
+
+    def ev(self, n):
+        if isinstance(n, ast.Constant) and isinstance(n.value, int):
+            return z3.BitVecVal(n.value, 64)
+        if isinstance(n, ast.Constant) and isinstance(n.value, str):
+            return n.value
+        if isinstance(n, ast.Name):
+            if n.id in self.env:
+                return self.env[n.id]
+            if n.id == "indata":
+                return self.V
+            if n.id == "outdata":
+                return "OUT"
+            if n.id == "nat":
+                return z3.BitVecVal(self.NAT, 64)
+            if n.id == "factor":
+                return 1000
+            raise Untranslatable("free name " + n.id)
+        if isinstance(n, ast.Call):
+            f = ast.unparse(n.func)
+            if f.endswith(".view") and len(n.args) == 1:
+                return self.ev(n.func.value)
+            if f == "np.where" and len(n.args) == 3:
+                c, a, b = (self.ev(x) for x in n.args)
+                return z3.If(c, self.tobv(a), self.tobv(b))
+            if f in ("np.divide", "np.true_divide") and len(n.args) >= 2:
+                return self.truediv(self.ev(n.args[0]), self.ev(n.args[1]))
+            if f == "np.floor_divide" and len(n.args) >= 2:
+                k = self.ev(n.args[1])
+                if isinstance(k, int) and k > 0:
+                    return self.fdiv(self.tobv(self.ev(n.args[0])), k)
+            if f in ("np.trunc", "np.fix"):
+                return ("fp-rtz", self.ev(n.args[0]))
+            if f == "np.floor":
+                return ("fp-rtn", self.ev(n.args[0]))
+            raise Untranslatable("call " + f)
+        if isinstance(n, ast.BinOp):
+            a, b = self.ev(n.left), self.ev(n.right)
+            if isinstance(n.op, ast.FloorDiv) and isinstance(b, int) and b > 0:
+                return self.fdiv(self.tobv(a), b)
+            if isinstance(n.op, ast.Div):
+                return self.truediv(a, b)
+            if isinstance(n.op, ast.Mult) and isinstance(b, int):
+                return self.tobv(a) * z3.BitVecVal(b, 64)
+            raise Untranslatable("operator " + type(n.op).__name__)
+        if isinstance(n, ast.Compare) and len(n.ops) == 1 and isinstance(n.ops[0], (ast.Eq, ast.NotEq)):
+            a, b = self.tobv(self.ev(n.left)), self.tobv(self.ev(n.comparators[0]))
+            return a == b if isinstance(n.ops[0], ast.Eq) else a != b
+        raise Untranslatable(ast.unparse(n)[:60])
+
+    def truediv(self, a, b):
+        fa = z3.fpSignedToFP(z3.RNE(), self.tobv(a), z3.Float64())
+        fb = z3.FPVal(float(b), z3.Float64()) if isinstance(b, int) else z3.fpSignedToFP(z3.RNE(), self.tobv(b),
+                                                                                           z3.Float64())
+        return ("fp", z3.fpDiv(z3.RNE(), fa, fb))
+
+    def tobv(self, v):
+        """value as stored into an int64 array (casting='unsafe' / plain assignment of floats truncates toward zero)"""
+        if isinstance(v, tuple) and v[0] == "fp":
+            return z3.fpToSBV(z3.RTZ(), v[1], z3.BitVecSort(64))
+        if isinstance(v, tuple) and v[0] in ("fp-rtz", "fp-rtn"):
+            inner = v[1]
+            if not (isinstance(inner, tuple) and inner[0] == "fp"):
+                raise Untranslatable("rounding of a non-float")
+            return z3.fpToSBV(z3.RTZ() if v[0] == "fp-rtz" else z3.RTN(), inner[1], z3.BitVecSort(64))
+        if isinstance(v, str) and v == "OUT":
+            if self.out is None:
+                raise Untranslatable("output read before it is written")
+            return self.out
+        if isinstance(v, int):
+            return z3.BitVecVal(v, 64)
+        return v
+
+    def run(self, stmts):
+        for st in stmts:
+            if isinstance(st, ast.Expr) and isinstance(st.value, ast.Constant):
+                continue
+            if isinstance(st, ast.Assign) and len(st.targets) == 1:
+                tgt = st.targets[0]
+                if isinstance(tgt, ast.Name):
+                    self.env[tgt.id] = self.ev(st.value)
+                    continue
+                if isinstance(tgt, ast.Subscript) and isinstance(self.ev(tgt.value), str) and \
+                        self.ev(tgt.value) == "OUT":
+                    val = self.tobv(self.ev(st.value))
+                    if isinstance(tgt.slice, ast.Slice) and tgt.slice.lower is None and tgt.slice.upper is None:
+                        self.out = val
+                    else:
+                        mask = self.ev(tgt.slice)
+                        if not z3.is_bool(mask):
+                            raise Untranslatable("index " + ast.unparse(tgt.slice))
+                        self.out = z3.If(mask, val, self.tobv("OUT"))
+                    continue
+                raise Untranslatable("assignment to " + ast.unparse(tgt))
+            if isinstance(st, ast.Expr) and isinstance(st.value, ast.Call) and \
+                    any(k.arg == "out" for k in st.value.keywords):
+                tgt = [k.value for k in st.value.keywords if k.arg == "out"][0]
+                if not (isinstance(self.ev(tgt), str) and self.ev(tgt) == "OUT"):
+                    raise Untranslatable("out= target " + ast.unparse(tgt))
+                self.out = self.tobv(self.ev(st.value))
+                continue
+            raise Untranslatable("statement " + ast.unparse(st)[:60])
+        return self.out
+
+
+def timedelta_micros():
+    import numpy as np
+    import fastparquet.writer as writer
+    import fastparquet.converted_types as ct
+    from fastparquet import parquet_thrift as pt
+    res = _res("lemma.timedelta_micros[writer.time_shift]", ["writer.time_shift", "writer.convert (TIME_MICROS branch)",
+                                                             "converted_types.convert (TIME_MICROS)"], {})
+    V = z3.BitVec("V", 64)
+    try:
+        tree = ast.parse(textwrap.dedent(inspect.getsource(writer.time_shift)))
+        out = _BV(V).run(tree.body[0].body)
+        if out is None:
+            raise Untranslatable("time_shift does not write its output")
+    except Untranslatable as ex:
+        res["status"] = "inconclusive"
+        res["inconclusive"].append("time_shift: " + str(ex))
+        return res
+    # the reader views TIME_MICROS as timedelta64[us] (live probe of the dtype)
+    se = pt.SchemaElement(type=pt.Type.INT64, converted_type=pt.ConvertedType.TIME_MICROS, name="t")
+    probe = ct.convert(np.array([0], dtype="int64"), se)
+    if str(probe.dtype) != "timedelta64[us]":
+        res["status"] = "violation"
+        res["findings"].append(dict(kind="contract", function="converted_types.convert", obligation="TIME_MICROS unit",
+                                    detail="TIME_MICROS is read as %s" % probe.dtype,
+                                    shape=dict(harness="lemma.timedelta_micros"), cls="lemma:timedelta_micros",
+                                    witness=dict(driver="py:vf.pyshim.lemma_time:replay_timedelta", args=dict(v=1500))))
+        return res
+    nat = z3.BitVecVal(_BV.NAT, 64)
+    want = z3.If(V == nat, nat, _BV.fdiv(V, 1000))
+    s = z3.Solver()
+    s.set("timeout", 240000)
+    q = _check(res, s, out != want)
+    if q == "sat":
+        v = s.model().eval(V, model_completion=True).as_signed_long()
+        res["status"] = "violation"
+        res["findings"].append(dict(
+            kind="contract", function="writer.time_shift", obligation="nanoseconds -> whole microseconds",
+            detail="a timedelta64[ns] of %d ns is not stored as floor(v / 1000) microseconds" % v,
+            shape=dict(harness="lemma.timedelta_micros"), cls="lemma:timedelta_micros",
+            witness=dict(driver="py:vf.pyshim.lemma_time:replay_timedelta", args=dict(v=v))))
+    elif q == "unknown":
+        res["status"] = "inconclusive"
+        res["inconclusive"].append("solver unknown")
+    res["reached"] = 1
+    return res
+
+
+def replay_timedelta(v):
+    import shutil, tempfile
+    import numpy as np
+    import pandas as pd
+    import fastparquet
+    d = tempfile.mkdtemp(prefix="c01-")
+    try:
+        vals = np.array([v, 0, 1999], dtype="m8[ns]")
+        df = pd.DataFrame({"t": vals})
+        fn = os.path.join(d, "t.parq")
+        fastparquet.write(fn, df)
+        out = fastparquet.ParquetFile(fn).to_pandas()["t"]
+        got = out.values.astype("m8[us]").view("int64").tolist()
+        want = [(x // 1000) if x != -(2 ** 63) else -(2 ** 63) for x in (v, 0, 1999)]
+        if got != want:
+            return True, "timedelta64[ns] value of %d ns comes back as %d us, expected %d us" % (v, got[0], want[0])
+        return False, "whole microseconds preserved"
+    finally:
+        shutil.rmtree(d, ignore_errors=True)
